@@ -6,7 +6,7 @@ PID = "C17"
 
 
 def run(tier: str, seed: int) -> Report:
-    rep = Report(property_id=PID, level="exploration")
+    rep = Report(property_id=PID, level="other")
     rep.exhaustive = False
     rep.rule = (
         "cases = (strict record specification, conforming table): ALL %d specifications with 1-2 control-key columns (key patterns needing one or both "
